@@ -164,6 +164,16 @@ Definition ref_simple (e : env) (i : instr) (s : list value) : outcome :=
               | VList l :: r | VSet l :: r | VMap l :: r => Done (VInt (Z.of_nat (length l)) :: r)
               | _ => Stuck
               end
+  | I_LAMBDA a b body => Done (VLam a b body :: s)
+  (* APPLY / a : f : S  =>  { PUSH 'a a ; PAIR ; code f } : S *)
+  | I_APPLY => match s with
+               | x :: VLam (TPair ta tb) c body :: r =>
+                   match data_of_value ta x with
+                   | Some d => Done (VLam tb c (I_SEQ (I_PUSH ta d) (I_SEQ I_PAIR (I_SEQ body I_NOOP))) :: r)
+                   | None => Stuck
+                   end
+               | _ => Stuck
+               end
   | I_EMPTY_SET _ => Done (VSet [] :: s)
   | I_EMPTY_MAP _ _ => Done (VMap [] :: s)
   | I_MEM => match s with
@@ -381,6 +391,15 @@ Fixpoint ref_eval (e : env) (fuel : nat) (i : instr) (s : list value) {struct fu
                                     end
                    | _ => Stuck
                    end
+      (* EXEC / a : f : S  =>  r : S   where code f / a : [] => r : [] *)
+      | I_EXEC => match s with
+                  | x :: VLam _ _ body :: r => match ref_eval e f body [x] with
+                                               | Done [y] => Done (y :: r)
+                                               | Done _ => Stuck
+                                               | o => o
+                                               end
+                  | _ => Stuck
+                  end
       | _ => ref_simple e i s
       end
   end.
